@@ -396,7 +396,6 @@ def cross(*axes, tail=()):
 
 
 def variants(method):
-    W = [('valid', False)]
     if method in ('get_api_version', 'get_supvisors_state', 'get_all_instances_state_modes', 'get_master_identifier',
                   'get_strategies', 'get_statistics_status', 'get_all_instances_info', 'get_all_local_process_info',
                   'get_all_applications_info', 'get_all_process_info', 'get_conflicts', 'restart', 'shutdown', 'get_logger_levels'):
@@ -430,7 +429,8 @@ def variants(method):
     if method in ('enable_host_statistics', 'enable_process_statistics'):
         return [('valid', (True,)), ('valid', (False,)), ('valid/collector', (True,))]
     if method == 'update_collecting_period': return [('valid', (5.0,)), ('valid/collector', (7.5,))]
-    return None            # a method this harness does not know: reported, called without arguments
+    return None            # a public method this harness does not know: reported in the evidence, not called
+                           # (it has no documented entry either: `C17_gate_table` stops checking)
 
 
 NAME_ARG = {  # method -> (index of the name argument, kind)
